@@ -43,7 +43,7 @@ def plan(tier, seed):
 def finalize(agg, tier):
     c = agg["counters"]
     out = []
-    need = ["cells:RSA", "cells:DSA", "lib_roundtrips", "model_parses", "der_layers_strict", "wrong_passphrase_refused",
+    need = ["cells:RSA", "cells:DSA", "lib_roundtrips", "model_parses", "der_layers_strict", "wrong_passphrase_refused", "key_observations",
             "model_blobs_imported", "equality_pairs", "openssh_private_imported", "protected_cells", "legacy_pem_cells",
             "keys_with_leading_zero_or_high_bit"]
     need += ["cells:ECC:" + cv for cv in CURVES]
@@ -95,6 +95,54 @@ def ecc_numbers(kf, k, compressed=None):
             d["seed"] = bytes(k.seed)
     d["compressed"] = compressed if c.kind == "weierstrass" else None
     return d
+
+
+_OBSERVED = {}      # id(key object) -> (key object, attribute values at the first observation)
+
+
+def observe(ctx, key, kind):
+    """A user may look at a key before and between exports.  Every documented attribute is read; the values must be the
+    ones read the first time (exporting does not change a key) and, for RSA, the derived CRT values must be what RFC 8017
+    defines.  Reading the attributes also fills whatever the key object caches lazily, so that later exports run with
+    warm caches."""
+    t = type(key).__name__
+    vals = {}
+    names = {"RsaKey": ("n", "e") + (("d", "p", "q", "u", "dp", "dq", "invp", "invq") if key.has_private() else ()),
+             "DsaKey": ("y", "g", "p", "q") + (("x",) if key.has_private() else ())}.get(t)
+    try:
+        if names is None:
+            vals["curve"] = key.curve
+            vals["Q"] = (int(key.pointQ.x),) + ((int(key.pointQ.y),) if not key.curve.startswith("Curve") else ())
+            if key.has_private():
+                vals["d"] = int(key.d)
+                if hasattr(key, "seed") and key.curve.startswith(("Ed", "Curve")):
+                    vals["seed"] = bytes(key.seed)
+        else:
+            for n_ in names:
+                if hasattr(key, n_):
+                    vals[n_] = int(getattr(key, n_))
+    except Exception as e:      # noqa
+        ctx.check(False, "attributes:%s:reading-raised-%s" % (kind, type(e).__name__), "reading a documented key attribute raised",
+                  {"key": kind, "exc": repr(e)})
+        return
+    ctx.count("key_observations")
+    slot = _OBSERVED.get(id(key))
+    if slot is None or slot[0] is not key:
+        if len(_OBSERVED) > 200:
+            _OBSERVED.clear()
+        _OBSERVED[id(key)] = (key, vals)
+        if t == "RsaKey" and key.has_private():
+            p_, q_, d_ = vals["p"], vals["q"], vals["d"]
+            exp = {"u": pow(p_, -1, q_), "invp": pow(p_, -1, q_), "invq": pow(q_, -1, p_), "dp": d_ % (p_ - 1), "dq": d_ % (q_ - 1)}
+            bad = {k: (hex(vals[k]), hex(v)) for k, v in exp.items() if k in vals and vals[k] != v}
+            ctx.check(not bad, "attributes:RSA:derived-value-wrong", "a derived RSA attribute is not the value RFC 8017 defines",
+                      lambda: {"key": kind, "attribute: (got, expected)": bad})
+        return
+    first = slot[1]
+    changed = sorted(k for k in vals if first.get(k) != vals[k])
+    ctx.check(not changed, "attributes:%s:changed-after-export" % kind.split("[")[0],
+              "an attribute of a key object changed its value after the key had been exported",
+              lambda: {"key": kind, "changed": {k: (repr(first.get(k))[:80], repr(vals[k])[:80]) for k in changed}})
 
 
 def numbers_of(kf, k, compressed=None):
@@ -173,6 +221,7 @@ class Cell:
         desc = desc or tuple(sorted((k, (v if not isinstance(v, (bytes, dict)) else type(v).__name__)) for k, v in kwargs.items()
                                     if k not in ("randfunc",)))
         ctx.case((self.kind, key.has_private(), desc))
+        observe(ctx, key, self.kind)
         w = lambda: {"key": self.kind, "private": key.has_private(),
                      "export_kwargs": {k: (v if not isinstance(v, bytes) else v.decode("latin-1")) for k, v in kwargs.items()}}
         try:
